@@ -49,3 +49,20 @@ claim("C02", "MIR ordering + guard-dominance (predicate-restricted) + who-may ta
       "FORCE_WRITE flags are confined to the audited functions and rejected by the openers except for the XRD vault blueprint; delete_partition / "
       "force_write / Track::finalize / CommitResult have only their audited callers; Reject/Abort arms cannot reach the commit path; Commit is "
       "constructed only when the loan is repaid. The numerical content of the fee writes is not decided.")
+
+claim("C47", "who-may-call table + MIR guard-dominance on comparison guards with operand provenance",
+      "Decides: wasmi linear memory is touched only by read_memory/write_memory; in both the access is dominated by NOT(ptr > len) and "
+      "NOT(ptr+len > len) computed from the function's own pointer/length parameters against the length of Memory::data; the slice uses the "
+      "checked operands; additions are of u32-derived/slice-length operands (64-bit assumption); no raw memory operations in vm::wasm::wasmi.")
+
+claim("C44", "who-may-write tables + MIR guard-dominance on comparison guards",
+      "Decides: proposer timestamps are stored only by check_non_decreasing_and_update_timestamps, whose milli store lies behind "
+      "NOT(current < previous) (doomed arm otherwise) and whose minute store lies behind new > previous, with the stored values originating from "
+      "the parameter; next_round performs no effect before the time check and Round::calculate_progress succeeded; epoch/round have only "
+      "next_round/start as writers. '+1 exactly' and minute rounding are not decided.")
+
+claim("C43", "MIR guard-dominance (predicate-restricted) + literal-argument table + pairing (remove -> tombstone lock)",
+      "Decides: create_non_fungibles writes an entry only behind the id-type test and (when check_non_existence) behind the not-already-existing "
+      "test on the same handle; check_non_existence=false is passed only with RUID ids from generate_ruid; burn_internal tombstone-locks every "
+      "removed entry on every success path; update_non_fungible_data writes only after the mutable-field lookup succeeded and overwrites the "
+      "looked-up index. Id uniqueness over histories additionally relies on C51.")
